@@ -1,5 +1,6 @@
 import PyPhysim.Model.Proto
 import PyPhysim.Model.C20
+import PyPhysim.Model.C20Gmd
 open PyPhysim.Proto PyPhysim.LinAlg
 
 /-!
@@ -24,6 +25,10 @@ instance : Div CF := ⟨fun a b =>
   ⟨(a.re * b.re + a.im * b.im) / d, (a.im * b.re - a.re * b.im) / d⟩⟩
 instance : Conj CF := ⟨fun a => ⟨a.re, -a.im⟩⟩
 instance : RSqrt CF := ⟨fun a => ⟨Float.sqrt a.re, 0⟩⟩
+instance : Neg CF := ⟨fun a => ⟨-a.re, -a.im⟩⟩
+/-- order of the real parts (only real quantities are ever compared) -/
+instance : LE CF := ⟨fun a b => a.re ≤ b.re⟩
+instance : DecidableLE CF := fun a b => inferInstanceAs (Decidable (a.re ≤ b.re))
 
 instance : Zero Float := ⟨0.0⟩
 instance : One Float := ⟨1.0⟩
@@ -136,6 +141,25 @@ def handle : List String → String
       if hk : k ≤ c then
         return showMat (gpcm (toMat m m U) (toVec (min m c) S) (toMat c c VH) k hk)
       else return "out-of-model"
+  -- gmd m n p sb U S V -> Q | R | P   (U, V row-major; V = V_H^H)
+  | ["gmd", m, n, p, sb, u, sv, v] => Id.run do
+      let some (m, n, p) := nat3 m n p | return "bad-op"
+      let some sb := parseFloat? sb | return "bad-op"
+      let some U := parseC (m * m) u | return "bad-op"
+      let some fs := parseFloatList? (emptyOk sv) | return "bad-op"
+      let some V := parseC (n * n) v | return "bad-op"
+      let cols (k : Nat) (xs : Array CF) : Array (Array CF) :=
+        Array.ofFn (n := k) (fun j => Array.ofFn (n := k) (fun i => xs.getD (i.val * k + j.val) ⟨0, 0⟩))
+      let S : Array CF := (fs.map (fun x => (⟨x, 0⟩ : CF))).toArray
+      match gmd m n p (⟨sb, 0⟩ : CF) (cols m U) S (cols n V) with
+      | .error e => return "error:" ++ toString e
+      | .ok (Q, R, P, mg) =>
+        let showCols (k : Nat) (M : Array (Array CF)) : String :=
+          ",".intercalate ((List.range k).flatMap (fun i => (List.range k).map (fun j =>
+            showC ((M.getD j #[]).getD i ⟨0, 0⟩))))
+        let showRows (M : Array (Array CF)) : String :=
+          ",".intercalate (M.toList.flatMap (fun row => row.toList.map showC))
+        return showCols m Q ++ "|" ++ showRows R ++ "|" ++ showCols n P ++ "|" ++ showFloat mg.re
   | ["db2lin", x] => match parseFloat? x with
       | some x => showFloat (dB2Linear x) | none => "bad-op"
   | ["lin2db", x] => match parseFloat? x with
